@@ -222,7 +222,7 @@ fn run_history(h: &Hist, no_forged: bool) -> HistResult {
     let mut established_by: &'static str = "lookup-reply";
     let mut owners_so_far: Vec<String> = h.init.iter().map(|s| s.to_string()).collect();
 
-    let mut apply = |bus: &mut Bus,
+    let apply = |bus: &mut Bus,
                      out: &mut HistResult,
                      sigs: &mut Vec<SigRecord>,
                      established_by: &mut &'static str,
@@ -344,7 +344,7 @@ fn run_history(h: &Hist, no_forged: bool) -> HistResult {
 
     let mut yielded: Vec<(Option<u32>, String, String)> = vec![]; // (idx, sender, member)
     let mut ended = false;
-    let mut do_drain = |w: &mut World, bus: &mut Bus, out: &mut HistResult, stream: &mut Option<SignalStream<'static>>, yielded: &mut Vec<(Option<u32>, String, String)>, ended: &mut bool| {
+    let do_drain = |w: &mut World, bus: &mut Bus, out: &mut HistResult, stream: &mut Option<SignalStream<'static>>, yielded: &mut Vec<(Option<u32>, String, String)>, ended: &mut bool| {
         let Some(s) = stream.take() else { return };
         match catch(|| fakebus::run(w, bus, "drain", drain(s))) {
             Ok(Some((s, msgs, e))) => {
@@ -378,8 +378,6 @@ fn run_history(h: &Hist, no_forged: bool) -> HistResult {
     if ended {
         out.log.push("stream ended".into());
     }
-    drop(apply);
-    drop(do_drain);
 
     // ---- oracle ----
     let role = |sender: &str, owner_then: &Option<String>, owners: &[String]| -> &'static str {
